@@ -17,7 +17,9 @@ RULE = ('cases = real join executions: W3 seeded random hostile tables with ever
         'chunk-relative ids), NM near-miss tables holding for every (a,b)<=N a pair one shared token '
         'short of qualifying and one exactly qualifying, W2 all arrangements of small sets at every '
         'separating threshold and every operator, W4 exact-score thresholds of sets up to 64 tokens '
-        '(with > the boundary pairs must be absent). Non-trivial = the output had at least one row '
+        '(with > the boundary pairs must be absent), W5 every (a,b,o) up to N with rare shared tokens at '
+        'thresholds next to attained scores with and without the score column, LARGE planted tables '
+        'with near misses, AMBIG token sets, colliding output labels. Non-trivial = the output had at least one row '
         'whose score was checked; distinct = distinct (workload, parameters, table digest).')
 ASSUMPTIONS = c01.ASSUMPTIONS
 SHARD_TIMEOUT = {'quick': 600, 'thorough': 3600}
